@@ -31,16 +31,19 @@ Proof.
     + apply okey_eqb_eq in E; subst k2. apply okey_eqb_neq in Hn. rewrite Hn. reflexivity.
     + destruct (okey_eqb k' k2); [reflexivity | exact IH].
 Qed.
-Lemma find_ord_update_same n o' vs : find_ord n vs <> None -> find_ord n (update_ord n o' vs) = Some o'.
+Lemma nth_update_same i g vs r : nth_error vs i = Some r -> nth_error (update_nth i g vs) i = Some (g r).
 Proof.
-  induction vs as [|[m o] vs IH]; cbn [update_ord find_ord]; [congruence|].
-  destruct (n =? m)%N eqn:E; cbn [find_ord]; rewrite E; [reflexivity | exact IH].
+  revert i; induction vs as [|x vs IH]; intros [|i]; cbn; try discriminate.
+  - intros E; inversion E; reflexivity.
+  - apply IH.
 Qed.
-Lemma update_ord_ords n o' vs : map fst (update_ord n o' vs) = map fst vs.
+Lemma nth_update_other i j g vs : j <> i -> nth_error (update_nth i g vs) j = nth_error vs j.
 Proof.
-  induction vs as [|[m o] vs IH]; cbn [update_ord map fst]; [reflexivity|].
-  destruct (n =? m)%N; cbn [map fst]; [reflexivity | rewrite IH; reflexivity].
+  revert i j; induction vs as [|x vs IH]; intros [|i] [|j] Hn; cbn; try reflexivity; try congruence.
+  apply IH. congruence.
 Qed.
+Lemma update_nth_length i g vs : length (update_nth i g vs) = length vs.
+Proof. revert i; induction vs as [|x vs IH]; intros [|i]; cbn; auto. Qed.
 
 (* ---------------- registry ---------------- *)
 Lemma reg_get_filter_same i r : reg_get i (filter (fun e => negb (i =? fst e)%N) r) = 0%N.
@@ -194,11 +197,11 @@ Proof.
       * intros pb [Hpb|Hpb]; [subst pb; left; cbn; auto | ].
         destruct (H11 _ Hpb) as [(X1 & X2 & X3)|(X1 & X2)]; [left; repeat split; [exact X1 | right; exact X2 | exact X3] | right; auto].
     + destruct (blob_get (p_store p, p_id p) (s_blobs s)) as [c|] eqn:Eb; [|intros E; inversion E].
-      set (s1 := mkS (s_objs s) (s_next s) (s_nextp s + 1) (s_reg s) (((dst, s_nextp s), c) :: s_blobs s) (s_idx s)) in *.
+      set (s1 := with_nextp s (s_nextp s + 1) (((dst, s_nextp s), c) :: s_blobs s) (s_idx s)) in *.
       destruct (move_parts s1 dst ps) as [[[s2 rows2] shared2] ok2] eqn:Em.
       intros E; inversion E; subst; clear E.
       destruct (IH _ _ _ _ Em) as (H1 & H2 & H3 & H4 & H5 & H6 & H7 & H8 & H9 & H10 & H11).
-      subst s1. cbn [s_objs s_reg s_idx s_next s_nextp s_blobs] in *.
+      subst s1. cbn [with_nextp s_objs s_reg s_idx s_next s_nextp s_blobs] in *.
       assert (Hold : forall st i, (i < s_nextp s)%N -> blob_get (st, i) (s_blobs s') = blob_get (st, i) (s_blobs s)).
       { intros st i Hi. rewrite H9 by lia. cbn [blob_get].
         destruct (pair_eqb (st, i) (dst, s_nextp s)) eqn:E2; [apply pair_eqb_eq in E2; inversion E2; lia | reflexivity]. }
